@@ -24,7 +24,9 @@ EnvOf(name) == Cases[cid].env[name]
 
 SeqTypes == {"expr", "list", "tuple", "set", "dict", "fstr", "fcomp"}
 Ops == {"unquote", "unquote-splice", "quasiquote"}
-Op(t) == IF t.t = "expr" /\ Len(t.ch) >= 1 /\ t.ch[1].t = "sym" /\ t.ch[1].v \in Ops THEN t.ch[1].v ELSE ""
+\* a head symbol is recognised up to mangling: unquote_splice is unquote-splice
+Canon(name) == IF name = "unquote_splice" THEN "unquote-splice" ELSE name
+Op(t) == IF t.t = "expr" /\ Len(t.ch) >= 1 /\ t.ch[1].t = "sym" /\ Canon(t.ch[1].v) \in Ops THEN Canon(t.ch[1].v) ELSE ""
 Quote == 99       \* the level of a plain quote: nothing is ever unquoted
 
 M(t, v, x, ch) == [t |-> t, v |-> v, x |-> x, ch |-> ch]
